@@ -428,4 +428,7 @@ def run(ck, tier):
     from .. import ownership as _own2
     ck.rule('R8', 'no unsound memoisation (a caching decorator on a method, or on a function that returns a mutable container) in the modules this property rests on')
     ck.guard(_own2.rule_no_unsafe_memo, ck, cx, 'R8', ('pymodbus.utilities', 'pymodbus.pdu', 'pymodbus.factory', 'pymodbus.bit_read_message', 'pymodbus.bit_write_message', 'pymodbus.register_read_message', 'pymodbus.register_write_message', 'pymodbus.diag_message', 'pymodbus.file_message', 'pymodbus.other_message', 'pymodbus.mei_message'), 'the second encode / decode of an object no longer reflects its fields')
+    from ..share import import_findings as _imp2
+    ck.rule('R9', 'MEI objects: the length byte written for an object is the length of the bytes emitted for it, so that decode() cuts the object where encode() ended it (shared with C20 R1b)')
+    _imp2(ck, 'C20', 'R9', ('R1b',), 'decode() then cuts the object short and parses the rest of it as further object headers: the decoded message differs from the encoded one')
     return cx.idx
